@@ -547,4 +547,198 @@ theorem free_facts (s : Sess) (i : Nat) : RtSub s { s with exchs := s.exchs.set 
   · exact ⟨e', hs, hr⟩
 
 
+
+theorem findSlot_some (h : RxHdr) : ∀ (l : List (Option Exch)) (k i : Nat), findSlot h l k = some i →
+    k ≤ i ∧ ∃ e, l[i - k]? = some (some e) ∧ e.isForRx h = true ∧
+      ∀ j e', j < i - k → l[j]? = some (some e') → e'.isForRx h = false := by
+  intro l
+  induction l with
+  | nil => intro k i hf; simp [findSlot] at hf
+  | cons x xs ih =>
+    intro k i hf
+    cases x with
+    | none =>
+      simp only [findSlot] at hf
+      obtain ⟨hk, e, he, hfor, hmin⟩ := ih (k + 1) i hf
+      have h1 : i - k = (i - (k + 1)) + 1 := by omega
+      refine ⟨by omega, e, by rw [h1, List.getElem?_cons_succ]; exact he, hfor, ?_⟩
+      intro j e' hj hje
+      cases j with
+      | zero => simp at hje
+      | succ j => rw [List.getElem?_cons_succ] at hje; exact hmin j e' (by omega) hje
+    | some e0 =>
+      simp only [findSlot] at hf
+      split at hf
+      · rename_i hfor
+        simp only [Option.some.injEq] at hf
+        subst hf
+        refine ⟨Nat.le_refl _, e0, by simp, hfor, ?_⟩
+        intro j e' hj _
+        omega
+      · rename_i hnot
+        obtain ⟨hk, e, he, hfor, hmin⟩ := ih (k + 1) i hf
+        have h1 : i - k = (i - (k + 1)) + 1 := by omega
+        refine ⟨by omega, e, by rw [h1, List.getElem?_cons_succ]; exact he, hfor, ?_⟩
+        intro j e' hj hje
+        cases j with
+        | zero =>
+          simp only [List.getElem?_cons_zero, Option.some.injEq] at hje
+          subst hje
+          simpa using hnot
+        | succ j => rw [List.getElem?_cons_succ] at hje; exact hmin j e' (by omega) hje
+
+theorem findSlot_none (h : RxHdr) : ∀ (l : List (Option Exch)) (k : Nat), findSlot h l k = none →
+    ∀ (j : Nat) (e : Exch), l[j]? = some (some e) → e.isForRx h = false := by
+  intro l
+  induction l with
+  | nil => intro k _ j e hj; simp at hj
+  | cons x xs ih =>
+    intro k hf j e hj
+    cases x with
+    | none =>
+      simp only [findSlot] at hf
+      cases j with
+      | zero => simp at hj
+      | succ j => rw [List.getElem?_cons_succ] at hj; exact ih (k + 1) hf j e hj
+    | some e0 =>
+      simp only [findSlot] at hf
+      split at hf
+      · simp at hf
+      · rename_i hnot
+        cases j with
+        | zero =>
+          simp only [List.getElem?_cons_zero, Option.some.injEq] at hj
+          subst hj
+          simpa using hnot
+        | succ j => rw [List.getElem?_cons_succ] at hj; exact ih (k + 1) hf j e hj
+
+theorem slot_eq_some (s : Sess) (i : Nat) (e : Exch) : s.slot i = some e ↔ s.exchs[i]? = some (some e) := by
+  simp only [Sess.slot]
+  cases h : s.exchs[i]? with
+  | none => simp
+  | some v => cases v <;> simp
+
+/-- `get_exch_for_rx` answers a slot that holds an exchange with the header's id and the role the
+header's initiator flag addresses (initiator message ⇒ our responder exchange), and it is the first such slot -/
+theorem getExchForRx_some (s : Sess) (h : RxHdr) (i : Nat) (hf : s.getExchForRx h = some i) :
+    ∃ e, s.slot i = some e ∧ e.id = h.exch ∧ e.role.isResponder = h.initiator ∧
+      ∀ j e', j < i → s.slot j = some e' → ¬ (e'.id = h.exch ∧ e'.role.isResponder = h.initiator) := by
+  obtain ⟨_, e, he, hfor, hmin⟩ := findSlot_some h s.exchs 0 i hf
+  simp only [Nat.sub_zero] at he hmin
+  simp only [Exch.isForRx, Bool.and_eq_true, beq_iff_eq] at hfor
+  refine ⟨e, (slot_eq_some s i e).2 he, hfor.1, hfor.2.symm, ?_⟩
+  intro j e' hj hs ⟨h1, h2⟩
+  have := hmin j e' hj ((slot_eq_some s j e').1 hs)
+  simp [Exch.isForRx, h1, h2] at this
+
+/-- … and `None` only if no live exchange has that (id, role) -/
+theorem getExchForRx_none (s : Sess) (h : RxHdr) (hf : s.getExchForRx h = none) :
+    ∀ j e, s.slot j = some e → ¬ (e.id = h.exch ∧ e.role.isResponder = h.initiator) := by
+  intro j e hs ⟨h1, h2⟩
+  have := findSlot_none h s.exchs 0 hf j e ((slot_eq_some s j e).1 hs)
+  simp [Exch.isForRx, h1, h2] at this
+
+
+
+theorem mrp_postRecv_error_unchanged (m : Mrp) (c : Nat) (a : Option Nat) (rel : Bool) (now : Nat) (e : Err)
+    (h : (m.postRecv c a rel now).2 = some e) : (m.postRecv c a rel now).1 = m ∧ e = .duplicate := by
+  unfold Mrp.postRecv at h ⊢
+  cases a with
+  | none => cases rel <;> simp at h
+  | some av =>
+    cases hm : m.retrans with
+    | none => cases rel <;> simp [hm] at h
+    | some r =>
+      simp only [hm] at h ⊢
+      by_cases hne : r.ctr = av
+      · cases rel <;> simp [hne] at h
+      · simp only [ne_eq, hne, not_false_eq_true, ↓reduceIte, Option.some.injEq] at h ⊢
+        exact ⟨trivial, h.symm⟩
+
+theorem mrp_postRecv_fresh_ok (c : Nat) (a : Option Nat) (rel : Bool) (now : Nat) :
+    (({} : Mrp).postRecv c a rel now).2 = none := by
+  unfold Mrp.postRecv
+  cases a <;> cases rel <;> simp
+
+/-- what a received message may do to the exchange slots of its session -/
+def RecvSpec (s : Sess) (h : RxHdr) (s' : Sess) (r : Except Err Bool) : Prop :=
+  (r = .ok false → ∃ i e m, s.getExchForRx h = some i ∧ s.slot i = some e ∧
+      s'.slot i = some { e with mrp := m } ∧ ∀ j, j ≠ i → s'.slot j = s.slot j) ∧
+  (r = .ok true → s.getExchForRx h = none ∧ h.initiator = true ∧ h.newOk = true ∧ s.expired = false ∧
+      ∃ i m, s.slot i = none ∧ s'.slot i = some { id := h.exch, role := .rp, mrp := m } ∧
+      ∀ j, j ≠ i → s'.slot j = s.slot j) ∧
+  (∀ er, r = .error er → ∀ j, s'.slot j = s.slot j)
+
+theorem recvSpec_error (s : Sess) (h : RxHdr) (s' : Sess) (er : Err) (hsl : ∀ j, s'.slot j = s.slot j) :
+    RecvSpec s h s' (.error er) :=
+  ⟨fun hr => by simp at hr, fun hr => by simp at hr, fun _ _ => hsl⟩
+
+/-- **What a received message does to the exchange slots of its session.** -/
+theorem postRecv_effect (s : Sess) (h : RxHdr) (now : Nat) :
+    RecvSpec s h (s.postRecv h now).1 (s.postRecv h now).2 := by
+  unfold Sess.postRecv
+  simp only
+  split
+  · exact recvSpec_error s h _ _ (fun j => rfl)
+  · generalize hs0 : ({ s with rx := (Dedup.postRecv s.rx h.ctr s.mode.enc false).1 } : Sess) = s0
+    have hsl : ∀ j, s0.slot j = s.slot j := by subst hs0; intro j; rfl
+    have hget : s0.getExchForRx h = s.getExchForRx h := by subst hs0; rfl
+    split
+    · rename_i i hgi
+      split
+      · rename_i e he
+        have herr := mrp_postRecv_error_unchanged e.mrp h.ctr h.ack h.reliable now
+        generalize hP : e.mrp.postRecv h.ctr h.ack h.reliable now = P at herr
+        obtain ⟨m, err⟩ := P
+        cases err with
+        | none =>
+          refine ⟨fun _ => ?_, fun hr => by simp at hr, fun er hr => by simp at hr⟩
+          refine ⟨i, e, m, by rw [← hget]; exact hgi, by rw [← hsl]; exact he, ?_, ?_⟩
+          · rw [setMrp_slot]; simp [he]
+          · intro j hj
+            rw [setMrp_slot]
+            have : ¬ i = j := fun h => hj h.symm
+            simp [this, hsl]
+        | some er =>
+          apply recvSpec_error
+          intro j
+          have := (herr er rfl).1
+          simp only at this
+          subst this
+          rw [setMrp_slot]
+          split
+          · rename_i hij; subst hij; simp [he, ← hsl]
+          · exact hsl j
+      · exact recvSpec_error s h _ _ hsl
+    · rename_i hgn
+      split
+      · exact recvSpec_error s h _ _ hsl
+      · rename_i hgate
+        split
+        · exact recvSpec_error s h _ _ hsl
+        · rename_i hexp'
+          split
+          · rename_i s' i ha
+            have hadd := addExch_slot s0 s' h.exch .rp i ha
+            have hfresh := mrp_postRecv_fresh_ok h.ctr h.ack h.reliable now
+            generalize hP : ({} : Mrp).postRecv h.ctr h.ack h.reliable now = P at hfresh
+            obtain ⟨m, err⟩ := P
+            simp only at hfresh
+            subst hfresh
+            have hg : h.initiator = true ∧ h.newOk = true := by
+              simp only [Bool.or_eq_true, Bool.not_eq_true', not_or, Bool.not_eq_false] at hgate
+              exact hgate
+            refine ⟨fun hr => by simp at hr, fun _ => ?_, fun er hr => by simp at hr⟩
+            refine ⟨by rw [← hget]; exact hgn, hg.1, hg.2, by simpa using hexp', i, m, ?_, ?_, ?_⟩
+            · rw [← hsl]; exact hadd.1
+            · rw [setMrp_slot]; simp [hadd.2.2 i]
+            · intro j hj
+              rw [setMrp_slot]
+              have : ¬ i = j := fun h => hj h.symm
+              simp only [this, ↓reduceIte]
+              rw [hadd.2.2 j]
+              simp [hj, hsl]
+          · exact recvSpec_error s h _ _ hsl
+
+
 end Transport
